@@ -178,8 +178,9 @@ impl From<DeviceEngagement> for ciborium::Value {
         if let Some(methods) = device_engagement.server_retrieval_methods {
             map.push((ciborium::Value::Integer(3.into()), methods.into()));
         }
-        if let Some(_info) = device_engagement.protocol_info {
-            // Usage of protocolinfo is RFU and should for now be none
+        if let Some(info) = device_engagement.protocol_info {
+            // Usage of protocolinfo is RFU; it is carried unchanged when present.
+            map.push((ciborium::Value::Integer(4.into()), info));
         }
 
         ciborium::Value::Map(map)
